@@ -256,7 +256,11 @@ func cmdCheck(mode string, args []string) int {
 		}
 	}
 	dir := scratchDir()
-	defer os.RemoveAll(dir)
+	if os.Getenv("GOVC_KEEP") == "" {
+		defer os.RemoveAll(dir)
+	} else {
+		fmt.Fprintln(os.Stderr, "scratch:", dir)
+	}
 	par := make(chan struct{}, runtime.NumCPU())
 	var mu sync.Mutex
 	var wg sync.WaitGroup
